@@ -15,6 +15,8 @@ pub struct Case {
     pub real: bool,
     pub init: MachineInitStrategy,
     pub timer: Option<(u64, u32, u32, u8)>,
+    /// write the timer range as a..b+1 instead of a..=b
+    pub half_open: bool,
 }
 
 pub fn decode(tape: &[u32]) -> Case {
@@ -26,7 +28,8 @@ pub fn decode(tape: &[u32]) -> Case {
         let a = 1 + t.pick(40) as u32;
         (t.raw() as u64, a, a + t.pick(30) as u32, t.pick(8) as u8)
     });
-    Case { prog, real, init, timer }
+    let half_open = t.chance(1, 2);
+    Case { prog, real, init, timer, half_open }
 }
 
 fn mem_digest(sim: &Simulator) -> u64 {
@@ -45,7 +48,7 @@ fn trace(c: &Case, st: &mut Stats) -> Vec<(u16, u16, [u16; 8], u64, u64)> {
     let spec = spec_for_prog(&c.prog, c.real, false, c.init);
     let mut rig = build_rig(&spec);
     if let Some((seed, a, b, prio)) = c.timer {
-        let mut tm = TimerDevice::new(Some(seed), a..=b, 0x81, prio);
+        let mut tm = if c.half_open { TimerDevice::new(Some(seed), a..b + 1, 0x81, prio) } else { TimerDevice::new(Some(seed), a..=b, 0x81, prio) };
         tm.enabled = true;
         rig.sim.device_handler.add_device(tm, &[]).unwrap();
     }
@@ -139,7 +142,7 @@ pub fn check(tape: &[u32], st: &mut Stats) -> Result<(), String> {
     if fired || matches!(c.init, MachineInitStrategy::Seeded { .. }) {
         st.nontrivial(tape);
         if st.want_sample() {
-            st.sample(json!({"program": describe_prog(&c.prog), "init": format!("{:?}", c.init), "timer(seed,min,max,priority)": c.timer, "steps": t1.len()}));
+            st.sample(json!({"program": describe_prog(&c.prog), "init": format!("{:?}", c.init), "timer(seed,min,max,priority)": c.timer, "half_open_range": c.half_open, "steps": t1.len()}));
         }
     }
     Ok(())
